@@ -243,7 +243,7 @@ pub fn oracle(e: &Exec) -> Option<String> {
             if ended_by_command || !loop_still_working {
                 continue;
             }
-            let printed_depth = |d: &str| log[*gi..bi].iter().any(|x| matches!(x, Ev::Out(tt, l) if tt == t && l.trim() == format!("info depth {}", d)));
+            let printed_depth = |d: &str| log[*gi..bi].iter().any(|x| matches!(x, Ev::Out(tt, l) if tt == t && crate::srch::parse_info(l).and_then(|i| i.depth).map_or(false, |x| x.to_string() == d)));
             if toks.contains(&"infinite") {
                 if !printed_depth("64") {
                     return Some(format!("`{}` announced `{}` although no stop, ucinewgame or quit had been processed (and it had not run through all iterations): something else ended the search", gtext, text));
@@ -483,7 +483,7 @@ pub fn deep_sessions(tier: &str) -> Acc {
                 let bm = t.iter().filter(|l| l.starts_with("bestmove")).count();
                 let ro = t.iter().filter(|l| *l == "readyok").count();
                 let errs = t.iter().filter(|l| l.starts_with("error:")).count();
-                let deepest = t.iter().filter_map(|l| l.strip_prefix("info depth ")).filter_map(|x| x.trim().parse::<u64>().ok()).max().unwrap_or(0);
+                let deepest = crate::srch::info_depths(&t).into_iter().max().unwrap_or(0) as u64;
                 acc.max("deepest iteration completed in a deep session", deepest);
                 acc.transitions += 1;
                 if bm != 2 || ro != 2 || errs != 0 {
